@@ -24,6 +24,7 @@ func main() {
 	verbose := flag.Bool("v", false, "print every obligation")
 	overlay := flag.String("overlay", "", "JSON file {path: replacement-file} applied to the loader (self-test patches)")
 	audit := flag.Bool("audit", false, "also run the type-invariant writer audit")
+	diag := flag.Bool("diagnose", false, "for unknown obligations: retry without quantified assumptions to tell unprovable from slow")
 	flag.Parse()
 
 	var ov map[string][]byte
@@ -55,7 +56,7 @@ func main() {
 		os.Exit(2)
 	}
 	p.LoadS = time.Since(t0).Seconds()
-	opts := govc.CheckOpts{Prop: *prop, Tier: *tier, OnlyFunc: *only, SMTDir: *smtdir, Verbose: *verbose, Audit: *audit}
+	opts := govc.CheckOpts{Prop: *prop, Tier: *tier, OnlyFunc: *only, SMTDir: *smtdir, Verbose: *verbose, Audit: *audit, Diagnose: *diag}
 	if *tier == "thorough" {
 		opts.TimeoutS = 120
 		opts.Confirm = true
